@@ -20,7 +20,32 @@ class NodeC(AutoSerialize):
     pass
 
 
+try:                                    # attrs-decorated classes: _recursive_save/_load read __attrs_attrs__
+    import attrs as _attrs
+    from typing import Any as _Any
+
+    @_attrs.define(slots=False)
+    class NodeAttrs(AutoSerialize):
+        """attrs class with a __dict__: the serializer saves exactly the declared fields"""
+        a: _Any = None
+        b: _Any = None
+        x: _Any = None
+        data: _Any = None
+
+    @_attrs.define
+    class NodeSlots(AutoSerialize):
+        """slotted attrs class: the fields live in slots, not in vars()"""
+        a: _Any = None
+        b: _Any = None
+        x: _Any = None
+        data: _Any = None
+except Exception:                       # attrs not installed: the dimension is simply absent
+    NodeAttrs = NodeSlots = None
+
+ATTRS_FIELDS = ["a", "b", "x", "data"]
 CLASSES = {"NodeA": NodeA, "NodeB": NodeB, "NodeC": NodeC}
+if NodeAttrs is not None:
+    CLASSES.update({"NodeAttrs": NodeAttrs, "NodeSlots": NodeSlots})
 
 
 class TinyNet(torch.nn.Module):
